@@ -204,6 +204,13 @@ def alignment_programs():
         [("a b", "10"), ("", "90")],
         [(str(i), str(i + 1)) for i in range(64)],
         [("dup", "1"), ("dup", "2"), ("z", "0")],
+        # a label may be listed several times, not only next to itself, and labels equal under == may differ in type:
+        # each OCCURRENCE owns its own interval in declared order
+        [("off", "45"), ("on", "10"), ("off", "45")],
+        [("a", "1"), ("b", "1"), ("a", "1"), ("b", "1"), ("a", "1")],
+        [(1, "1"), (1.0, "1")],
+        [(0, "2"), ("x", "1"), (0.0, "2")],
+        [("z", "0"), ("y", "1"), ("z", "1")],
         # weights with many significant digits / extreme magnitudes must reach the generated code digit for digit
         [("p", "0.1234567"), ("q", "0.8765433")],
         [("p", "33.33333"), ("q", "33.33333"), ("r", "33.33334")],
